@@ -1,5 +1,6 @@
 (* C06 - the ledgers of the per-consumer window (amqp-rabbit dialect), of the connection-wide window (amqp-0-9-1
-   dialect) and the byte ledger of the channel window, over whole histories.  Only statements: each closed by `exact <lemma>` + Print Assumptions; examples by
+   dialect) and the byte ledgers of the channel window, of the per-consumer window and of the connection-wide window,
+   over whole histories.  Only statements: each closed by `exact <lemma>` + Print Assumptions; examples by
    vm_compute.  Proofs in Proofs/BrokerLedger2.v.
 
    Hypotheses every theorem carries, and why:
@@ -201,27 +202,31 @@ Proof.
   split; [apply smallc_alongb_spec; vm_compute; reflexivity|]. symmetry. apply run_step_labels.
 Qed.
 
-(* ---- THE BYTE LEDGER of the channel window (both dialects) ---- *)
+(* ---- THE BYTE LEDGER of the channel window (both dialects, any setting of the repair switches) ---- *)
 (* one step keeps "byte count of the channel window = body bytes (mod 2^32 each) of the channel's unsettled deliveries",
    provided every unsettled delivery names a complete message (UC - an invariant, next theorem) and no delivery would
    wrap the uint32 counter (SmallB) *)
 Theorem C06_byte_ledger_step :
   forall cfg fx s l,
-    cfg_rollback cfg = true -> fx_stage fx = true -> fx_chan_open fx = true ->
-    allch chinvp s -> UC s -> SmallB s -> BL s -> BL (fst (step cfg fx s l)).
+    cfg_rollback cfg = true -> allch chinvp s -> UC s -> SmallB s -> BL s -> BL (fst (step cfg fx s l)).
 Proof. exact BL_step. Qed.
 Print Assumptions C06_byte_ledger_step.
 
 (* what makes the sizes final: every message that an unsettled delivery, a waiting queue entry or the persistent store
    refers to has been allocated and, if the heap holds it, has its header and all the content the header announced *)
+Theorem C06_referenced_messages_complete_step :
+  forall cfg fx s l, RCI s -> RCI (fst (step cfg fx s l)).
+Proof. exact RCI_step. Qed.
+Print Assumptions C06_referenced_messages_complete_step.
+
 Theorem C06_referenced_messages_complete :
-  forall cfg fx ls, fx_stage fx = true -> fx_chan_open fx = true -> RCI (fst (run cfg fx (init cfg) ls)).
+  forall cfg fx ls, RCI (fst (run cfg fx (init cfg) ls)).
 Proof. exact references_complete_reachable. Qed.
 Print Assumptions C06_referenced_messages_complete.
 
 Theorem C06_byte_ledger_in_every_reachable_state :
   forall cfg fx ls c h ch,
-    cfg_rollback cfg = true -> fx_stage fx = true -> fx_chan_open fx = true ->
+    cfg_rollback cfg = true ->
     smallb_along cfg fx (init cfg) ls ->
     let s := fst (run cfg fx (init cfg) ls) in
     get_chan s c h = Some ch ->
@@ -252,6 +257,150 @@ Proof. vm_compute. repeat split; reflexivity. Qed.
 Example C06_byte_ledger_hypotheses_inhabited :
   smallb_along rab all_fixed (init rab) (step_labels rab all_fixed (init rab) ex3_script).
 Proof. apply smallb_alongb_spec. vm_compute. reflexivity. Qed.
+
+(* ---- THE BYTE LEDGER of the consumer's own window (amqp-rabbit dialect) ---- *)
+(* one step keeps, for every consumer, "byte count of its own window = body bytes of ITS unsettled deliveries" (with the
+   same structural facts as the count ledger: tags distinct and not empty, tagged deliveries name a consumer) *)
+Theorem C06_consumer_byte_ledger_step :
+  forall cfg fx, cfg_rabbit cfg = true -> fx_stage fx = true -> fx_chan_open fx = true -> fx_closeok_releases fx = true ->
+  forall s l, CB s -> UC s -> SmallB s -> YB s -> YB (fst (step cfg fx s l)).
+Proof. exact YB_step. Qed.
+Print Assumptions C06_consumer_byte_ledger_step.
+
+Theorem C06_consumer_byte_ledger_in_every_reachable_state :
+  forall cfg fx ls c h ch cm,
+    cfg_rabbit cfg = true -> fx_stage fx = true -> fx_chan_open fx = true -> fx_closeok_releases fx = true ->
+    smallb_along cfg fx (init cfg) ls ->
+    let s := fst (run cfg fx (init cfg) ls) in
+    get_chan s c h = Some ch -> In cm (ch_consumers ch) ->
+    cs (c_own cm) = fold_right (fun x acc => msg_size s (u_msg x) mod two32 + acc) 0
+                      (filter (fun u => seqb (u_ctag u) (c_tag cm)) (ch_unacked ch)).
+Proof. exact consumer_byte_ledger_reachable. Qed.
+Print Assumptions C06_consumer_byte_ledger_in_every_reachable_state.
+
+Theorem C06_consumer_delivery_only_below_size_limit :
+  forall wf ch cm size w',
+    ycinv wf yk0 ch -> In cm (ch_consumers ch) -> ycnt wf (ch_unacked ch) (c_tag cm) + size < two32 ->
+    qos_inc (c_own cm) size = Some w' -> ps (c_own cm) <> 0 ->
+    ycnt wf (ch_unacked ch) (c_tag cm) + size <= ps (c_own cm) /\ cs w' = ycnt wf (ch_unacked ch) (c_tag cm) + size.
+Proof. exact consumer_delivery_only_below_size_limit. Qed.
+Print Assumptions C06_consumer_delivery_only_below_size_limit.
+
+(* ... for the deliveries the broker actually makes: the delivered message is the head of the consumer's queue, and the
+   consumer's unsettled bytes plus that message's stay within its prefetch size *)
+Theorem C06_consumer_delivery_size_bounded :
+  forall cfg fx ls c h tag ch cm d r ex k,
+    cfg_rabbit cfg = true -> fx_stage fx = true -> fx_chan_open fx = true -> fx_closeok_releases fx = true ->
+    smallb_along cfg fx (init cfg) ls ->
+    let s := fst (run cfg fx (init cfg) ls) in
+    get_chan s c h = Some ch -> find_consumer ch tag = Some cm -> c_noack cm = false -> ps (c_own cm) <> 0 ->
+    In (c, h, SDeliver tag d r ex k) (snd (consumer_turn cfg fx s c h tag)) ->
+    exists qu u rest, get_queue s (c_queue cm) = Some qu /\ q_ready qu = u :: rest /\
+      fold_right (fun x acc => msg_size s (u_msg x) mod two32 + acc) 0 (filter (fun u => seqb (u_ctag u) (c_tag cm)) (ch_unacked ch))
+      + msg_size s u mod two32 <= ps (c_own cm).
+Proof. exact consumer_delivery_size_bounded_reachable. Qed.
+Print Assumptions C06_consumer_delivery_size_bounded.
+
+(* per-consumer prefetch sizes 7 ("a") and 4 ("b"), messages of 3 bytes: a holds 1 2 (6 bytes), b holds 3 (3 bytes), 4 and
+   5 wait; acknowledging 2 lets 4 through to a; requeueing 1 puts it behind 5, a's window stays at 6 bytes *)
+Definition viewb (s : state) (c h : N) :=
+  match get_chan s c h with
+  | Some ch => (map (fun u => (u_msg u, u_ctag u)) (ch_unacked ch), map (fun cm => (c_tag cm, ps (c_own cm), cs (c_own cm))) (ch_consumers ch))
+  | None => ([], [])
+  end.
+Definition ex4_script : list label :=
+  [LConnect 1; LMethod 1 1 MChannelOpen; LMethod 1 1 (MQDeclare "q" false false false false false);
+   LMethod 1 1 (MQos 0 7 false); LMethod 1 1 (MConsume "q" "a" false false false);
+   LMethod 1 1 (MQos 0 4 false); LMethod 1 1 (MConsume "q" "b" false false false)]
+  ++ pubq 1 1 "q" 1 ++ pubq 1 1 "q" 2 ++ pubq 1 1 "q" 3 ++ pubq 1 1 "q" 4 ++ pubq 1 1 "q" 5.
+Example C06_consumer_byte_ledger_example :
+  let s1 := fst (run_step rab all_fixed (init rab) ex4_script) in
+  let s2 := fst (run_step rab all_fixed s1 [LMethod 1 1 (MAck 2 false)]) in
+  let s3 := fst (run_step rab all_fixed s2 [LMethod 1 1 (MNack 1 false true)]) in
+  viewb s1 1 1 = ([(1, "a"); (2, "a"); (3, "b")], [("a", 7, 6); ("b", 4, 3)]) /\
+  viewb s2 1 1 = ([(1, "a"); (3, "b"); (4, "a")], [("a", 7, 6); ("b", 4, 3)]) /\
+  viewb s3 1 1 = ([(3, "b"); (4, "a"); (1, "a")], [("a", 7, 6); ("b", 4, 3)]) /\
+  smallb_along rab all_fixed (init rab) (step_labels rab all_fixed (init rab) ex4_script).
+Proof. split; [|split; [|split]]; [vm_compute; reflexivity..|]. apply smallb_alongb_spec. vm_compute. reflexivity. Qed.
+
+(* ---- THE BYTE LEDGER of the connection-wide window (amqp-0-9-1 dialect) ---- *)
+(* the channel numbers of a connection are distinct (any switches): every entry of chan_unacked_all is visible to get_chan *)
+Theorem C06_channel_numbers_distinct_step :
+  forall cfg fx s l, allcn KD s -> allcn KD (fst (step cfg fx s l)).
+Proof. exact KD_step. Qed.
+Print Assumptions C06_channel_numbers_distinct_step.
+
+Theorem C06_connection_byte_ledger_step :
+  forall cfg fx, cfg_rabbit cfg = false -> fx_stage fx = true -> fx_chan_open fx = true -> fx_closeok_releases fx = true ->
+  forall s l, CB s -> UC s -> allcn KD s -> SmallCB s -> ZB s -> ZB (fst (step cfg fx s l)).
+Proof. exact ZB_step. Qed.
+Print Assumptions C06_connection_byte_ledger_step.
+
+Theorem C06_connection_byte_ledger_in_every_reachable_state :
+  forall cfg fx ls c cn,
+    cfg_rabbit cfg = false -> fx_stage fx = true -> fx_chan_open fx = true -> fx_closeok_releases fx = true ->
+    smallcb_along cfg fx (init cfg) ls ->
+    let s := fst (run cfg fx (init cfg) ls) in
+    get_conn s c = Some cn ->
+    cs (cn_qos cn) = fold_right (fun x acc => msg_size s (u_msg x) mod two32 + acc) 0 (chan_unacked_all cn).
+Proof. exact conn_byte_ledger_reachable. Qed.
+Print Assumptions C06_connection_byte_ledger_in_every_reachable_state.
+
+Theorem C06_connection_delivery_only_below_size_limit :
+  forall wf cn size w',
+    znl wf 0 cn -> ztot wf cn + size < two32 -> qos_inc (cn_qos cn) size = Some w' -> ps (cn_qos cn) <> 0 ->
+    ztot wf cn + size <= ps (cn_qos cn) /\ cs w' = ztot wf cn + size.
+Proof. exact conn_delivery_only_below_size_limit. Qed.
+Print Assumptions C06_connection_delivery_only_below_size_limit.
+
+Theorem C06_connection_delivery_size_bounded :
+  forall cfg fx ls c h tag ch cm cn d r ex k,
+    cfg_rabbit cfg = false -> fx_stage fx = true -> fx_chan_open fx = true -> fx_closeok_releases fx = true ->
+    smallcb_along cfg fx (init cfg) ls ->
+    let s := fst (run cfg fx (init cfg) ls) in
+    get_chan s c h = Some ch -> get_conn s c = Some cn -> find_consumer ch tag = Some cm -> c_noack cm = false -> ps (cn_qos cn) <> 0 ->
+    In (c, h, SDeliver tag d r ex k) (snd (consumer_turn cfg fx s c h tag)) ->
+    exists qu u rest, get_queue s (c_queue cm) = Some qu /\ q_ready qu = u :: rest /\
+      fold_right (fun x acc => msg_size s (u_msg x) mod two32 + acc) 0 (chan_unacked_all cn) + msg_size s u mod two32 <= ps (cn_qos cn).
+Proof. exact conn_delivery_size_bounded_reachable. Qed.
+Print Assumptions C06_connection_delivery_size_bounded.
+
+Theorem C06_connection_get_size_bounded :
+  forall cfg fx ls c h q ch cn dt r ex k mc,
+    cfg_rabbit cfg = false -> fx_stage fx = true -> fx_chan_open fx = true -> fx_closeok_releases fx = true ->
+    smallcb_along cfg fx (init cfg) ls ->
+    let s := fst (run cfg fx (init cfg) ls) in
+    get_chan s c h = Some ch -> get_conn s c = Some cn -> ps (cn_qos cn) <> 0 ->
+    In (c, h, SGetOk dt r ex k mc) (snd (fst (handle_method cfg fx s c h (MGet q false)))) ->
+    exists qu u rest, get_queue s q = Some qu /\ q_ready qu = u :: rest /\
+      fold_right (fun x acc => msg_size s (u_msg x) mod two32 + acc) 0 (chan_unacked_all cn) + msg_size s u mod two32 <= ps (cn_qos cn).
+Proof. exact conn_get_size_bounded_reachable. Qed.
+Print Assumptions C06_connection_get_size_bounded.
+
+(* a connection-wide prefetch size of 7 bytes over two channels (amqp-0-9-1), messages of 3 bytes: two are delivered
+   (6 bytes), basic.get on q2 - which holds 2 and 3 - is answered get-empty; acknowledging 1 lets 2 through on channel
+   2; closing channel 2 releases its 3 bytes *)
+Definition viewcb (s : state) (c : N) :=
+  match get_conn s c with
+  | Some cn => (ps (cn_qos cn), cs (cn_qos cn), map (fun kh => (fst kh, map u_msg (ch_unacked (snd kh)))) (cn_chans cn))
+  | None => (0, 0, [])
+  end.
+Definition ex5_script : list label :=
+  [LConnect 1; LMethod 1 1 MChannelOpen; LMethod 1 2 MChannelOpen; LMethod 1 1 (MQDeclare "q1" false false false false false);
+   LMethod 1 1 (MQDeclare "q2" false false false false false);
+   LMethod 1 1 (MQos 0 7 true); LMethod 1 1 (MConsume "q1" "a" false false false); LMethod 1 2 (MConsume "q2" "b" false false false)]
+  ++ pubq 1 1 "q1" 1 ++ pubq 1 1 "q2" 2 ++ pubq 1 1 "q2" 3 ++ pubq 1 1 "q1" 4.
+Example C06_connection_byte_ledger_example :
+  let t1 := fst (run_step std all_fixed (init std) ex5_script) in
+  let r1 := run_step std all_fixed t1 [LMethod 1 1 (MGet "q2" false)] in
+  let t2 := fst (run_step std all_fixed t1 [LMethod 1 1 (MAck 1 false)]) in
+  let t3 := fst (run_step std all_fixed t2 [LMethod 1 2 MChannelClose]) in
+  viewcb t1 1 = (7, 6, [(0, []); (1, [1; 4]); (2, [])]) /\
+  filter (fun e => match snd e with SGetEmpty => true | SGetOk _ _ _ _ _ => true | _ => false end) (snd r1) = [(1, 1, SGetEmpty)] /\
+  viewcb t2 1 = (7, 6, [(0, []); (1, [4]); (2, [2])]) /\
+  viewcb t3 1 = (7, 3, [(0, []); (1, [4]); (2, [])]) /\
+  smallcb_along std all_fixed (init std) (step_labels std all_fixed (init std) ex5_script).
+Proof. split; [|split; [|split; [|split]]]; [vm_compute; reflexivity..|]. apply smallcb_alongb_spec. vm_compute. reflexivity. Qed.
 
 (* ---- why the three repairs are hypotheses ---- *)
 Definition fixes_but (closeok chan_open stage : bool) : fixes :=
